@@ -21,7 +21,7 @@ def cfg_space(tier):
     nmax = 3 if tier == "quick" else 4
     # positive state, no bases: paths A (negB = 0 or = posB) and B (negB # posB); duplicates in the data
     pos = '''{ [type |-> "positive", startEp |-> 1, epochs |-> ee, N |-> n, posB |-> pb, negB |-> ngb,
-       data |-> d, bases |-> <<>>, sched |-> FALSE, entryStop |-> FALSE, perms |-> "all",
+       data |-> d, bases |-> <<>>, sched |-> FALSE, entryStop |-> FALSE, again |-> "no", perms |-> "all",
        cbs |-> <<[t |-> "rec"]>>, vals |-> <<>>, vars |-> <<>>] :
        n \\in 1..%d, pb \\in 1..%d, ngb \\in 0..2, ee \\in 1..2,
        d \\in {<<1, 2, 3, 0>>, <<2, 2, 1, 2>>} } ''' % (nmax, nmax)
@@ -29,7 +29,7 @@ def cfg_space(tier):
     # complex / mixed: bases given, negatives from the all-Z rows only (path C)
     oth = '''{ [type |-> ty, startEp |-> 1, epochs |-> 1, N |-> n, posB |-> pb, negB |-> ngb,
        data |-> [i \\in 1..n |-> d[i]], bases |-> [i \\in 1..n |-> bs[i]], sched |-> FALSE, entryStop |-> FALSE,
-       perms |-> "all", cbs |-> <<[t |-> "rec"]>>, vals |-> <<>>, vars |-> <<>>] :
+       again |-> "no", perms |-> "all", cbs |-> <<[t |-> "rec"]>>, vals |-> <<>>, vars |-> <<>>] :
        ty \\in {"complex", "density"}, n \\in 1..%d, pb \\in 1..3, ngb \\in 0..2,
        d \\in {<<1, 2, 3, 0>>, <<3, 3, 1, 3>>}, bs \\in {<<0, 1, 2, 5>>, <<0, 0, 4, 0>>} }''' % nmax
     return [pos, oth]
@@ -49,7 +49,7 @@ def random_cfg(rng, tier):
     pb = rng.choice([1, 2, 3, N, N + 2, max(1, N // 2), 4])
     return dict(type=typ, startEp=1, epochs=rng.randint(1, 3), N=N, posB=pb,
                 negB=rng.choice([0, pb, 1, 2, 5]), data=data, bases=bases, sched=False,
-                entryStop=False, perms="all", cbs=[{"t": "rec"}], vals=[], vars=[])
+                entryStop=False, again="no", perms="all", cbs=[{"t": "rec"}], vals=[], vars=[])
 
 
 def run(tier, seed):
